@@ -123,6 +123,39 @@ def real_configure(text: str, values: T.Dict[str, T.Any], fmt: str) -> T.Tuple[i
     return 0, cps(out), sorted(cps(m) for m in missing)
 
 
+ENC_NAMES = [['utf-8', 'utf8', 'UTF-8'], ['iso-8859-1', 'latin-1', 'latin1'], ['iso-8859-15', 'latin9', 'iso8859-15'],
+             ['cp1252', 'windows-1252'], ['utf-16-le', 'utf-16le'], ['utf-16']]
+
+
+def enc_name(ei: int, pick: int = 0) -> str:
+    names = ENC_NAMES[ei - 1]
+    return names[pick % len(names)]
+
+
+def real_configure_bytes(data: bytes, values: T.Dict[str, T.Any], fmt: str, encoding: str) -> T.Tuple[int, T.List[int], T.List[T.List[int]]]:
+    """File level: template BYTES in, do_conf_file with the `encoding` argument, output BYTES out."""
+    from mesonbuild import mesonlib, mlog
+    from mesonbuild.build import ConfigurationData
+    d = _workdir()
+    src = os.path.join(d, 'inb.txt')
+    dst = os.path.join(d, 'outb.txt')
+    with open(src, 'wb') as f:
+        f.write(data)
+    for junk in (dst, dst + '~'):
+        with contextlib.suppress(FileNotFoundError):
+            os.unlink(junk)
+    try:
+        with mlog.no_logging():
+            missing, _ = mesonlib.do_conf_file(src, dst, ConfigurationData(dict(values)), fmt, encoding)
+    except mesonlib.MesonException:
+        return 1, [], []
+    except Exception:
+        return 2, [], []
+    with open(dst, 'rb') as f:
+        out = f.read()
+    return 0, list(out), sorted(cps(m) for m in missing)
+
+
 def real_header(values: T.Dict[str, T.Any]) -> T.List[T.Dict[str, T.Any]]:
     """dump_conf_header -> the directives of the file in order (projection: #define / #undef lines)."""
     from mesonbuild import mesonlib
@@ -170,6 +203,23 @@ def _worker_family(args: T.Tuple[T.Dict[str, T.Any], T.List[int], T.List[int], T
     return out
 
 
+def _worker_file(args: T.Tuple[T.Dict[str, T.Any], T.List[int], T.List[int], T.List[int], T.List[int], int, int, int]) -> T.List[T.Dict[str, T.Any]]:
+    space, bytesel, encsel, confsel, fmtsel, n, lo, hi = args
+    common.use_repo_meson()
+    batoms = [bytes(a) for a in space['batoms']]
+    confs = [conf_values(c) for c in space['confs']]
+    out = []
+    for code in range(lo, hi):
+        idx = _decode(code, n, bytesel)
+        data = b''.join(batoms[j - 1] for j in idx)
+        for ei in encsel:
+            for ci in confsel:
+                for fi in fmtsel:
+                    e, ob, m = real_configure_bytes(data, confs[ci - 1], FORMATS[fi - 1], enc_name(ei, code + ci + fi))
+                    out.append({'ba': idx, 'en': ei, 'c': ci, 'f': fi, 'e': e, 'ob': ob, 'm': m})
+    return out
+
+
 # ---------------------------------------------------------------------------
 # (B) random templates
 
@@ -185,6 +235,50 @@ NAMES = ['a', 'b', 'A', 'B', 'long_name-1', 'a/b.c+d', 'zz']
 VALUES_MESON = ['X', '', 'two words', '@b@', '@a@', '\\@a\\@', '${a}', '\\\\', '"quoted"', 'a@b', '@', 'vé', 7, 0, -12, 123456, True, False]
 VALUES_CMAKE = ['X', '', 'two words', 'plain', '"quoted"', 'vé', 7, 0, -12, True, False]
 EOLS = ['\n', '\n', '\n', '\r\n', '\r\n', '']
+
+
+FRAGMENTS_F = ['@a@', '@b@', '@undefined@', '${a}', '${b}', '\\@a\\@', '\\\\@a@', 'text ', '\n', '\r\n', '\u00fc', '\u20ac', '\u00e9\u00e8',
+               '\u65e5\u672c', '\U0001f600', '\u00ff', '\u00a4', '\u0153', '#define X ', '"', '\ufeff', 'a', '@']
+DEFINE_LINES_F = ['#mesondefine a', '#mesondefine A', '#cmakedefine A @a@ \u00fc', '#cmakedefine A ${a}', '#cmakedefine01 A',
+                  '#mesondefine undefined_one']
+VALUES_F = ['X', '\u00fc', '\u20acuro', '\u65e5\u672c', '\u00e9 \u00e8', '', '\u0153', 7, True, False]
+
+
+def _rand_file_case(rnd: random.Random) -> T.Tuple[bytes, int, T.Dict[str, T.Any], int]:
+    """-> template bytes, encoding index, values, format index"""
+    ei = rnd.randint(1, 6)
+    fi = rnd.randint(1, 3)
+    values = {k: rnd.choice(VALUES_F) for k in rnd.sample(['a', 'b', 'A'], rnd.randint(0, 3))}
+    parts = []
+    for _ in range(rnd.randint(1, 6)):
+        line = rnd.choice(DEFINE_LINES_F) if rnd.random() < 0.25 else ''.join(rnd.choice(FRAGMENTS_F) for _ in range(rnd.randint(0, 7)))
+        parts.append(line + rnd.choice(EOLS))
+    text = ''.join(parts)
+    name = enc_name(ei)
+    r = rnd.random()
+    if name == 'utf-16':
+        if r < 0.6:
+            data = b'\xff\xfe' + text.encode('utf-16-le')
+        elif r < 0.8:
+            data = b'\xfe\xff' + text.encode('utf-16-be')
+        else:
+            data = text.encode('utf-16-le')          # no byte order mark
+    else:
+        if r < 0.5:          # keep only what the codec can express
+            text = ''.join(ch for ch in text if _encodable(ch, name))
+        data = text.encode(name, errors='ignore')
+    if rnd.random() < 0.15 and data:     # damage: drop or insert a byte
+        k = rnd.randrange(len(data))
+        data = data[:k] + (bytes([rnd.choice([0x81, 0xC3, 0xFF, 0xD8, 0x80])]) if rnd.random() < 0.5 else b'') + data[k + 1:]
+    return data, ei, values, fi
+
+
+def _encodable(ch: str, name: str) -> bool:
+    try:
+        ch.encode(name)
+        return True
+    except UnicodeError:
+        return False
 
 
 def conf_entries(values: T.Dict[str, T.Any]) -> T.List[T.Dict[str, T.Any]]:
@@ -236,6 +330,11 @@ def _worker_rand(args: T.Tuple[int, int, int]) -> T.Tuple[T.List[T.Dict[str, T.A
                 hd = [{'d': 'raised', 'k': [], 'v': [], 'hasv': 0}]
             confs.append(conf_entries(hv))
             cases.append({'hd': hd, 'c': len(confs)})
+        if j % 3 == 0:      # file level: bytes in a non-default encoding
+            data, ei, values, fi = _rand_file_case(rnd)
+            e, ob, m = real_configure_bytes(data, values, FORMATS[fi - 1], enc_name(ei, j))
+            confs.append(conf_entries(values))
+            cases.append({'by': list(data), 'en': ei, 'c': len(confs), 'f': fi, 'e': e, 'ob': ob, 'm': m})
     return cases, confs
 
 
@@ -250,9 +349,18 @@ def _tlc_part(payload: str, workers: T.Union[int, str]) -> common.TLCResult:
                        heap='4g')
 
 
+BATOMS: T.List[T.List[int]] = []     # byte-atom table of the file level (exported by TemplateFile_MC)
+
+
 def describe(c: T.Dict[str, T.Any], atoms: T.List[T.List[int]], confs: T.List[T.Any]) -> T.Dict[str, T.Any]:
     if 'hd' in c:
         return {'header_of': conf_values(confs[c['c'] - 1]), 'directives': [(h['d'], txt(h['k']), txt(h['v'])) for h in c['hd']]}
+    if 'en' in c:
+        data = bytes(c['by']) if 'by' in c else b''.join(bytes(BATOMS[j - 1]) for j in c['ba'])
+        return {'template_bytes': data.hex(), 'template_repr': repr(data), 'encoding': ENC_NAMES[c['en'] - 1][0],
+                'configuration': conf_values(confs[c['c'] - 1]), 'format': FORMATS[c['f'] - 1],
+                'outcome': {0: 'output', 1: 'MesonException', 2: 'other exception'}[c['e']],
+                'output_bytes': bytes(c['ob']).hex(), 'output_repr': repr(bytes(c['ob'])), 'missing_reported': [txt(m) for m in c['m']]}
     text = ''.join(txt(atoms[j - 1]) for j in c['a']) if 'a' in c else txt(c['t'])
     return {'template': text, 'configuration': conf_values(confs[c['c'] - 1]), 'format': FORMATS[c['f'] - 1],
             'outcome': {0: 'output', 1: 'MesonException', 2: 'other exception'}[c['e']], 'output': txt(c['o']),
@@ -262,7 +370,7 @@ def describe(c: T.Dict[str, T.Any], atoms: T.List[T.List[int]], confs: T.List[T.
 def judge(chk: Check, cases: T.List[T.Dict[str, T.Any]], atoms: T.List[T.List[int]], confs: T.List[T.Any], label: str) -> None:
     for n, c in enumerate(cases):
         c['id'] = n
-    head = {'atoms': atoms, 'confs': confs}
+    head = {'atoms': atoms, 'batoms': BATOMS, 'confs': confs}
 
     def payload(part: T.Sequence[T.Dict[str, T.Any]]) -> str:
         return json.dumps({**head, 'cases': list(part)}, separators=(',', ':'))
@@ -299,6 +407,11 @@ def judge(chk: Check, cases: T.List[T.Dict[str, T.Any]], atoms: T.List[T.List[in
                                                                 'expected': txt(v['expected'])}, 'case': d,
                                                     'via': c.get('via', 'do_conf_file')})
             continue
+        if 'en' in c:
+            chk.violation(signature(v, d), {'verdict': {'clause': v['clause'], 'got': v['got'],
+                                                        'expected': repr(bytes(v['expected'])) if v['clause'] != 'MissingReport' else v['expected']},
+                                            'case': d, 'via': c.get('via', 'do_conf_file')})
+            continue
         chk.violation(signature(v, d), {'verdict': {'clause': v['clause'],
                                                     'expected': txt(v['expected']) if v['clause'] in ('Text', 'Crashed', 'RejectedButMustAccept') else v['expected'],
                                                     'got': v['got']},
@@ -306,6 +419,8 @@ def judge(chk: Check, cases: T.List[T.Dict[str, T.Any]], atoms: T.List[T.List[in
 
 
 def signature(v: T.Dict[str, T.Any], d: T.Dict[str, T.Any]) -> str:
+    if 'template_bytes' in d:
+        return f"{v['clause']}@{d['encoding']}/{d['format']}:{d['template_bytes']}:{json.dumps(d['configuration'], sort_keys=True)}"
     if 'template' not in d:
         return f"{v['clause']}@{json.dumps(d['header_of'], sort_keys=True)}"
     return f"{v['clause']}@{d['format']}:{d['template']!r}:{json.dumps(d['configuration'], sort_keys=True)}"
@@ -319,6 +434,11 @@ def _account(chk: Check, cases: T.List[T.Dict[str, T.Any]], atoms: T.List[T.List
         if 'hd' in c:
             if c['hd']:
                 chk.nontriv('H' + json.dumps(c['hd']))
+            continue
+        if 'en' in c:
+            srcb = c['by'] if 'by' in c else [x for j in c['ba'] for x in BATOMS[j - 1]]
+            if c['e'] or c['m'] or c['ob'] != srcb:
+                chk.nontriv(f"F{c.get('ba', c.get('by'))}|{c['en']}|{c['c'] if 'ba' in c else json.dumps(confs[c['c'] - 1])}|{c['f']}")
             continue
         src = [x for j in c['a'] for x in atoms[j - 1]] if 'a' in c else c['t']
         if c['e'] or c['m'] or c['o'] != src:
@@ -344,20 +464,56 @@ def mc_cfg(atomsel: T.Iterable[int], confsel: T.Iterable[int], fmtsel: T.Iterabl
 
 def families(quick: bool) -> T.List[T.Tuple[str, T.List[int], T.List[int], T.List[int], int, int]]:
     # label, atoms, configurations, formats, model length, implementation length
+    if quick:
+        return [
+            # backslash @ a - space LF : the inline scanner of the meson format
+            ('meson-inline', [1, 2, 3, 6, 5, 11], [3, 4, 5], [1], 5, 5),
+            # whole placeholders next to each other, escapes, CR LF
+            ('meson-frag', [21, 24, 1, 2, 3, 5, 12], [3, 5], [1], 4, 4),
+            # @ a $ { } backslash LF : the cmake scanners
+            ('cmake-inline', [2, 3, 7, 8, 9, 1, 11], [1, 8], [2, 3], 4, 4),
+            ('cmake-frag', [21, 22, 24, 25, 3, 2, 5, 11], [1, 5], [2, 3], 4, 4),
+            # #mesondefine lines: keyword, blanks, names A B a, a placeholder, line terminators
+            ('meson-define', [15, 5, 14, 19, 20, 3, 21, 11, 12], [6, 7], [1], 4, 4),
+            # #cmakedefine / #cmakedefine01 / "# cmakedefine" lines
+            ('cmake-define', [16, 17, 18, 5, 19, 22, 11, 12], [6, 10], [2, 3], 4, 4),
+            # both kinds of placeholders and keywords mixed: format errors
+            ('mixed', [15, 16, 5, 19, 21, 22, 10, 11], [6, 8], [1, 2, 3], 3, 3),
+        ]
     return [
-        # backslash @ a - space LF : the inline scanner of the meson format
-        ('meson-inline', [1, 2, 3, 6, 5, 11], [1, 2, 3, 4, 5], [1], 5, 5 if quick else 6),
-        # whole placeholders next to each other, escapes, CR LF
-        ('meson-frag', [21, 24, 1, 2, 3, 5, 12], [1, 2, 3, 4, 5], [1], 4, 4 if quick else 5),
-        # @ a $ { } backslash LF : the cmake scanners
-        ('cmake-inline', [2, 3, 7, 8, 9, 1, 11], [1, 2, 5, 8], [2, 3], 4 if quick else 5, 4 if quick else 5),
-        ('cmake-frag', [21, 22, 24, 25, 3, 2, 5, 11], [1, 2, 5, 8], [2, 3], 4, 4 if quick else 5),
-        # #mesondefine lines: keyword, blanks, names A B a, a placeholder, line terminators
-        ('meson-define', [15, 5, 14, 19, 20, 3, 21, 11, 12], [1, 5, 6, 7, 8], [1], 4, 4 if quick else 5),
-        # #cmakedefine / #cmakedefine01 / "# cmakedefine" lines
-        ('cmake-define', [16, 17, 18, 5, 19, 20, 22, 23, 11, 12], [6, 10] if quick else [1, 6, 8, 10], [2, 3], 4, 4 if quick else 5),
-        # both kinds of placeholders and keywords mixed: format errors
-        ('mixed', [15, 16, 5, 19, 21, 22, 10, 11], [6, 8], [1, 2, 3], 3, 3 if quick else 4),
+        ('meson-inline', [1, 2, 3, 6, 5, 11], [1, 2, 3, 4, 5], [1], 5, 6),
+        ('meson-frag', [21, 24, 1, 2, 3, 5, 12], [1, 2, 3, 4, 5], [1], 4, 5),
+        ('cmake-inline', [2, 3, 7, 8, 9, 1, 11], [1, 2, 5, 8], [2, 3], 5, 5),
+        ('cmake-frag', [21, 22, 24, 25, 3, 2, 5, 11], [1, 2, 5, 8], [2, 3], 4, 5),
+        ('meson-define', [15, 5, 14, 19, 20, 3, 21, 11, 12], [1, 5, 6, 7, 8], [1], 4, 5),
+        ('cmake-define', [16, 17, 18, 5, 19, 20, 22, 23, 11, 12], [1, 6, 8, 10], [2, 3], 4, 5),
+        ('mixed', [15, 16, 5, 19, 21, 22, 10, 11], [6, 8], [1, 2, 3], 3, 4),
+    ]
+
+
+FILE_INVARIANTS = ['UndecodableIsError', 'DecodeEncodeRoundTrip', 'BytesOutsidePlaceholdersUnchanged', 'EncodingDistributes',
+                   'AsciiAgreesWithDefault', 'ErrorHasNoOutput']
+
+
+def file_cfg(bytesel: T.Iterable[int], encsel: T.Iterable[int], confsel: T.Iterable[int], fmtsel: T.Iterable[int], maxlen: int) -> str:
+    return ('SPECIFICATION Spec\nCONSTANTS\n ByteSel = {%s}\n EncSel = {%s}\n ConfSel = {%s}\n FmtSel = {%s}\n MaxLen = %d\n%s'
+            'CHECK_DEADLOCK FALSE\nPOSTCONDITION EmitSpace\n' % (
+                ', '.join(map(str, bytesel)), ', '.join(map(str, encsel)), ', '.join(map(str, confsel)),
+                ', '.join(map(str, fmtsel)), maxlen, ''.join('INVARIANT %s\n' % i for i in FILE_INVARIANTS)))
+
+
+def file_families(quick: bool) -> T.List[T.Tuple[str, T.List[int], T.List[int], T.List[int], T.List[int], int]]:
+    # label, byte atoms, encodings, configurations, formats, length (model = implementation)
+    n = 3 if quick else 4
+    return [
+        # placeholders between non-ASCII bytes of the 8-bit sets (and the same bytes taken as utf-8: undecodable)
+        ('file-8bit', [1, 2, 3, 4, 6, 7], [1, 2, 3, 4], [11, 12, 13], [1, 2, 3], n),
+        # utf-8 multi-byte filler, a truncated sequence, a latin-1 byte
+        ('file-utf8', [1, 2, 8, 9, 10, 3, 7], [1], [11, 12], [1, 2, 3], n),
+        # utf-16 with and without byte order mark, surrogates, half units
+        ('file-utf16', [12, 14, 15, 16, 17, 18, 20, 21], [5, 6], [11, 13], [1, 2, 3], n),
+        # define lines in every encoding
+        ('file-define', [22, 23, 3, 5, 12, 14], [1, 2, 3, 4, 5, 6], [11, 13], [1, 2, 3], 2 if quick else 3),
     ]
 
 
@@ -367,65 +523,105 @@ def main(chk: Check) -> None:
 
 
 def _main(chk: Check, base: str) -> None:
+    global BATOMS
     quick = chk.tier == 'quick'
-    chk.rule = ('A: every template of <= N atoms of five families (meson inline: backslash @ a - space LF; cmake inline: '
-                '@ a $ { } backslash LF; #mesondefine lines; #cmakedefine lines; mixed keywords) x the configuration '
-                'dictionaries of the model (values that look like placeholders included) x formats, through do_conf_file; a '
-                'sample through configure_file() with the CLI; B: random templates of up to 12 lines of placeholder-like '
-                'fragments with random configurations, and the header dump. Non-trivial = the real output differs from the '
-                'template, the template is rejected, or names are reported missing (distinct template x configuration x format).')
-    n_rand = 6000 if quick else 80000
-    res = run_tlc(SPECS / 'template', 'Template_MC', cfg_text=mc_cfg([3], range(1, 11), [1], 0, ONCE), timeout=3000,
-                  allow_violation=False)
+    chk.rule = ('A: every template of <= N atoms of seven text families (meson inline: backslash @ a - space LF; whole '
+                'placeholders; cmake inline: @ a $ { } backslash LF; #mesondefine lines; #cmakedefine lines; mixed keywords) x '
+                'the configuration dictionaries of the model (values that look like placeholders included) x formats, and of '
+                'four BYTE families (8-bit sets, utf-8, utf-16, define lines) x encoding x non-ASCII values x formats, all '
+                'through do_conf_file (bytes in, bytes out); a sample through configure_file() with the CLI incl. encoding:; '
+                'B: random templates of up to 12 lines of placeholder-like fragments with random configurations, random byte '
+                'templates in six encodings (damaged ones included), and the header dump. Non-trivial = the real output '
+                'differs from the template, the template is rejected, or names are reported missing (distinct cases).')
+    n_rand = 2400 if quick else 80000
+    res = run_tlc(SPECS / 'template', 'Template_MC', cfg_text=mc_cfg([3], range(1, 14), [1], 0, ONCE), timeout=3000,
+                  collect=['space.json'], allow_violation=False)
     chk.add_tlc('Template_MC[pinned cases, header]', res)
     dbg(f'model pinned {res.distinct} states {res.wall:.1f}s')
-    with ProcessPoolExecutor(max_workers=common.NCPU, initializer=_init_worker, initargs=(base,)) as ex:
-        space: T.Dict[str, T.Any] = {}
-        for label, atomsel, confsel, fmtsel, nmodel, nimpl in families(quick):
-            res = run_tlc(SPECS / 'template', 'Template_MC', cfg_text=mc_cfg(atomsel, confsel, fmtsel, nmodel),
-                          collect=['space.json'], timeout=3000, allow_violation=False)
-            chk.add_tlc(f'Template_MC[{label},len<={nmodel}]', res)
-            dbg(f'model {label} {res.distinct} states {res.wall:.1f}s')
-            space = json.loads(res.collected['space.json'])
-            chk.extra.setdefault('families', {})[label] = {'atoms': [txt(space['atoms'][j - 1]) for j in atomsel],
-                                                           'configurations': len(confsel), 'formats': len(fmtsel),
-                                                           'model_len': nmodel, 'impl_len': nimpl}
+    space = json.loads(res.collected['space.json'])
+    fams = families(quick)
+    ffams = file_families(quick)
+    # the model-checking runs go on in the background while the same spaces are driven through the implementation
+    mc_pool = ThreadPoolExecutor(max_workers=2)
+    half = max(2, common.NCPU // 2)
+    file_mc = {label: mc_pool.submit(run_tlc, SPECS / 'template', 'TemplateFile_MC', cfg_text=file_cfg(bs, es, cs, fs, n),
+                                     collect=['filespace.json'], timeout=3000, allow_violation=False, workers=half)
+               for label, bs, es, cs, fs, n in ffams[:1]}
+    text_mc = {label: mc_pool.submit(run_tlc, SPECS / 'template', 'Template_MC', cfg_text=mc_cfg(atomsel, confsel, fmtsel, nmodel),
+                                     timeout=3000, allow_violation=False, workers=half)
+               for label, atomsel, confsel, fmtsel, nmodel, _ in fams}
+    file_mc.update({label: mc_pool.submit(run_tlc, SPECS / 'template', 'TemplateFile_MC', cfg_text=file_cfg(bs, es, cs, fs, n),
+                                          collect=['filespace.json'], timeout=3000, allow_violation=False, workers=half)
+                    for label, bs, es, cs, fs, n in ffams[1:]})
+    try:
+        fspace = json.loads(file_mc[ffams[0][0]].result().collected['filespace.json'])
+        BATOMS = fspace['batoms']
+        if fspace['confs'] != space['confs'] or fspace['encodings'] != [e[0] for e in ENC_NAMES]:
+            raise MachineryError('the tables exported by Template_MC and TemplateFile_MC differ')
+        with ProcessPoolExecutor(max_workers=common.NCPU, initializer=_init_worker, initargs=(base,)) as ex:
+            # (A) file level first (bytes in six encodings), then the text families (default encoding); the cases of
+            # all families are judged in common batches
             cases: T.List[T.Dict[str, T.Any]] = []
             part_no = 0
-            for n in range(0, nimpl + 1):
-                total = len(atomsel) ** n
-                step = max(1, min(4000, total // (common.NCPU * 4) + 1))
-                jobs = [(space, atomsel, confsel, fmtsel, n, lo, min(total, lo + step)) for lo in range(0, total, step)]
-                for part in ex.map(_worker_family, jobs):
-                    cases.extend(part)
-                    if len(cases) >= 250000:
-                        _account(chk, cases, space['atoms'], space['confs'])
-                        judge(chk, cases, space['atoms'], space['confs'], f'A-{label}#{part_no}')
-                        part_no += 1
-                        cases = []
+
+            def flush(force: bool) -> None:
+                nonlocal cases, part_no
+                if cases and (force or len(cases) >= 150000):
+                    _account(chk, cases, space['atoms'], space['confs'])
+                    judge(chk, cases, space['atoms'], space['confs'], f'A#{part_no}')
+                    part_no += 1
+                    cases = []
+
+            for label, bytesel, encsel, confsel, fmtsel, n in ffams:
+                chk.extra.setdefault('file_families', {})[label] = {
+                    'byte_atoms': [bytes(BATOMS[j - 1]).hex() for j in bytesel], 'encodings': [ENC_NAMES[e - 1][0] for e in encsel],
+                    'configurations': len(confsel), 'formats': len(fmtsel), 'len': n}
+                for k in range(0, n + 1):
+                    total = len(bytesel) ** k
+                    step = max(1, min(500, total // (common.NCPU * 2) + 1))
+                    jobs = [(fspace, bytesel, encsel, confsel, fmtsel, k, lo, min(total, lo + step)) for lo in range(0, total, step)]
+                    for part in ex.map(_worker_file, jobs):
+                        cases.extend(part)
+                        flush(False)
+            for label, atomsel, confsel, fmtsel, nmodel, nimpl in fams:
+                chk.extra.setdefault('families', {})[label] = {'atoms': [txt(space['atoms'][j - 1]) for j in atomsel],
+                                                               'configurations': len(confsel), 'formats': len(fmtsel),
+                                                               'model_len': nmodel, 'impl_len': nimpl}
+                for n in range(0, nimpl + 1):
+                    total = len(atomsel) ** n
+                    step = max(1, min(4000, total // (common.NCPU * 4) + 1))
+                    jobs = [(space, atomsel, confsel, fmtsel, n, lo, min(total, lo + step)) for lo in range(0, total, step)]
+                    for part in ex.map(_worker_family, jobs):
+                        cases.extend(part)
+                        flush(False)
+            flush(True)
+            # (B) random templates (text and bytes) + header dump
+            step = max(1, n_rand // (common.NCPU * 4))
+            cases = []
+            confs: T.List[T.Any] = []
+            for pc, pf in ex.map(_worker_rand, [(lo, min(n_rand, lo + step), chk.seed) for lo in range(0, n_rand, step)]):
+                for c in pc:
+                    c['c'] += len(confs)
+                cases.extend(pc)
+                confs.extend(pf)
+                if len(cases) >= 60000:
+                    _account(chk, cases, [], confs)
+                    judge(chk, cases, [], confs, 'B')
+                    cases, confs = [], []
             if cases:
-                _account(chk, cases, space['atoms'], space['confs'])
-                judge(chk, cases, space['atoms'], space['confs'], f'A-{label}#{part_no}')
-        # (B) random templates + header dump
-        step = max(1, n_rand // (common.NCPU * 4))
-        cases = []
-        confs: T.List[T.Any] = []
-        for pc, pf in ex.map(_worker_rand, [(lo, min(n_rand, lo + step), chk.seed) for lo in range(0, n_rand, step)]):
-            for c in pc:
-                c['c'] += len(confs)
-            cases.extend(pc)
-            confs.extend(pf)
-            if len(cases) >= 60000:
                 _account(chk, cases, [], confs)
                 judge(chk, cases, [], confs, 'B')
-                cases, confs = [], []
-        if cases:
-            _account(chk, cases, [], confs)
-            judge(chk, cases, [], confs, 'B')
-    chk.extra['random_templates'] = n_rand
-    # (A') a sample through configure_file() with the real command line
-    from . import template_cli
-    template_cli.run(chk, space, judge, _account, base)
+        chk.extra['random_templates'] = n_rand
+        # (A') a sample through configure_file() with the real command line
+        from . import template_cli
+        template_cli.run(chk, space, fspace, judge, _account, base)
+        # the model-checking runs
+        for label, fut in list(text_mc.items()) + list(file_mc.items()):
+            r = fut.result()
+            chk.add_tlc(f"{'TemplateFile_MC' if label.startswith('file') else 'Template_MC'}[{label}]", r)
+            dbg(f'model {label} {r.distinct} states {r.wall:.1f}s')
+    finally:
+        mc_pool.shutdown(wait=True, cancel_futures=True)
     chk.exhaustive = True
     chk.assumptions += [
         'define lines are generated with the keyword standing alone (followed by a blank); "#mesondefineFOO BAR" and a '
@@ -434,10 +630,14 @@ def _main(chk: Check, base: str) -> None:
         'cmake formats: configuration values containing @ $ { } or backslash are not generated (what happens to such a '
         'value is undocumented; the statement promises "never scanned again" only for the meson format); a #cmakedefine '
         'whose rest contains a token that is itself a key is not judged',
-        'string values have no leading/trailing blanks and no line terminators; whitespace is ASCII (space, TAB, LF, VT, FF, CR)',
+        'string values have no leading/trailing blanks and no line terminators; whitespace is ASCII (space, TAB, LF, VT, FF, CR): '
+        'texts that decode to other Unicode white space (NBSP, NEL, ...) are not judged',
         'a define line replaces the whole line content (indentation included); its line terminator is kept, a last line '
         'without terminator gets LF (pinned by test_do_conf_file_by_format)',
         'header dump: c format without macro guard; descriptions are not generated; the projection reads #define/#undef lines',
+        'file level: the codecs (utf-8, iso-8859-1, iso-8859-15, cp1252, utf-16-le, utf-16) are modelled as Python implements them '
+        'for text files (strict errors; utf-16 input needs a byte order mark, output is little-endian with mark unless the '
+        'template is empty); other encodings are not generated',
     ]
 
 
@@ -454,6 +654,12 @@ def _replay(chk: Check, data: T.Dict[str, T.Any]) -> None:
         judge(chk, [{'hd': real_header(d['header_of']), 'c': 1}], [], [conf], 'replay')
         return
     fi = FORMATS.index(d['format']) + 1
+    if 'template_bytes' in d:
+        data = bytes.fromhex(d['template_bytes'])
+        ei = [n[0] for n in ENC_NAMES].index(d['encoding']) + 1
+        e, ob, m = real_configure_bytes(data, d['configuration'], d['format'], d['encoding'])
+        judge(chk, [{'by': list(data), 'en': ei, 'c': 1, 'f': fi, 'e': e, 'ob': ob, 'm': m}], [], [conf_entries(d['configuration'])], 'replay')
+        return
     e, o, m = real_configure(d['template'], d['configuration'], d['format'])
     judge(chk, [{'t': cps(d['template']), 'c': 1, 'f': fi, 'e': e, 'o': o, 'm': m}], [], [conf_entries(d['configuration'])], 'replay')
 
